@@ -38,6 +38,9 @@ PAIRS = ["slice/slice", "sort/sort", "sel/sel", "proj/proj", "calc/proj", "noop"
 
 
 def setup(tier):
+    from ..monitors import hooks
+
+    hooks.require()
     mon.install()
 
 
